@@ -115,6 +115,10 @@ class Runner:
         self.strangers = []     # distinct well-formed foreign elements
         self.foreign_keys = []
         self.accepted_bad = {0: [], 1: []}   # manipulated frames a client accepted (phase newly processed)
+        self.shadow_q = {0: [], 1: []}       # accepted non-PAKE frames waiting in Order's queue: (side, phase, desc, legit)
+        self.processed_bad = {0: [], 1: []}  # manipulated frames that were handed on to Receive
+        self.hold = {0: False, 1: False}     # the server withholds the peer's messages from this client …
+        self.held = {0: [], 1: []}           # … these
         self.tampered = False
         self.dropped = False
         self.exc_override = {}
@@ -248,6 +252,12 @@ class Runner:
             c.internal.append((name, str(e)[:200]))
             return name
 
+    def machine(self, obj):
+        try:
+            return automat_state(obj)
+        except Exception as e:  # noqa
+            return "<unobservable:%s>" % type(e).__name__
+
     def kind(self, name):
         return self.exc_override.get(name) or EXC_KIND.get(name, name)
 
@@ -323,10 +333,14 @@ class Runner:
         payload = c.conn.s2c.popleft()
         msg = bytes_to_dict(payload)
         t = msg.get("type")
+        if t == "message" and self.hold[ci] and msg.get("side") != c.side:
+            self.held[ci].append(payload)       # the server delivers it later (`release`)
+            return True
         snap = self.snapshot(ci)
         if t == "message":
             side, phase, body = msg["side"], msg["phase"], bytes.fromhex(msg["body"])
             self.exc_override = {}
+            o_before = self.machine(c.boss._O)
             desc, legit = self.describe(ci, side, phase, body)
             before = self.processed(ci) or set()
             nrx0 = c.boss._O._queue.__len__(), len(c.events)
@@ -337,6 +351,26 @@ class Runner:
                 ((c.boss._O._queue.__len__(), len(c.events)) != nrx0 or exc is not None)
             if accepted and not legit:
                 self.accepted_bad[ci].append((side, phase, desc))
+            # which frames did Order hand on to Receive in this step?
+            handed = []
+            if accepted and phase != "pake":
+                if o_before == "S0_no_pake":
+                    self.shadow_q[ci].append((side, phase, desc, legit))
+                else:
+                    handed = [(side, phase, desc, legit)]
+            elif accepted and phase == "pake" and o_before == "S0_no_pake" and self.machine(c.boss._O) == "S1_yes_pake":
+                handed, self.shadow_q[ci] = self.shadow_q[ci], []
+            bad = [x[:3] for x in handed if not x[3]]
+            if bad:
+                self.processed_bad[ci] += bad
+                self.tags.add("processed-bad:" + ("drained" if phase == "pake" else "direct"))
+                r_state = self.machine(c.boss._R)
+                if exc is None and r_state != "S3_scared":
+                    # no exception escaped, so every handed frame went through Receive.got_message with a key: a frame
+                    # whose label is not the one it was sealed for must have been `bad`
+                    self.viol.append(("relabelled-accepted-as-valid",
+                                      f"client {ci} processed manipulated frame(s) {bad[:2]} (re-labelled side/phase, foreign or "
+                                      f"unsealed body) and Receive is {r_state}, not S3_scared"))
             self.tags.add("rx:" + desc.split(" ")[0] + (":" + desc.split(" ")[1] if desc[0] == "P" else "") +
                           (":legit" if legit else ":bad") + (":accepted" if accepted else ":ignored"))
             evs = self.line(ci, f"rx {hs(side)} {hs(phase)} {desc}", exc, snap)
@@ -458,6 +492,41 @@ class Runner:
                 self.dropped = True
                 self.tags.add("op:drop")
                 self.line(ci, "lost", None if r in ("ok", "noop") else r, snap)
+        elif k == "dropmsg":         # the server does not deliver the queued `message` frames of one phase (e.g. it replays
+            ci, phase = op[1], op[2]  # the mailbox after a re-open selectively: everything but the PAKE message)
+            c = W.clients[ci]
+            if c.conn is not None:
+                keep = [p for p in c.conn.s2c
+                        if not (bytes_to_dict(p).get("type") == "message" and bytes_to_dict(p).get("phase") == phase
+                                and bytes_to_dict(p).get("side") != c.side)]
+                if len(keep) != len(c.conn.s2c):
+                    c.conn.s2c.clear()
+                    c.conn.s2c.extend(keep)
+                    self.tags.add("op:dropmsg")
+        elif k == "hold":            # from now on the server withholds the peer's messages from client ci
+            self.hold[op[1]] = True
+        elif k == "release":         # … and now delivers them: in order, or the encrypted ones BEFORE the PAKE message,
+            ci, mode, sidearg = op[1:4]   # the first encrypted one optionally under a rewritten side label
+            c = W.clients[ci]
+            self.hold[ci] = False
+            fr, self.held[ci] = self.held[ci], []
+            if c.conn is not None and fr:
+                ms = [bytes_to_dict(p) for p in fr]
+                if mode == "early":
+                    ms = [m for m in ms if m["phase"] != "pake"] + [m for m in ms if m["phase"] == "pake"]
+                    if len({m["phase"] == "pake" for m in ms}) == 2:
+                        self.tags.add("op:release:early")
+                if sidearg is not None:
+                    for m in ms:
+                        if m["phase"] != "pake":
+                            new = self.other_side(ci, sidearg)
+                            if new != m["side"]:
+                                m["side"] = new
+                                self.tampered = True
+                                self.tags.add("op:release:side" + (":early" if mode == "early" else ""))
+                            break
+                for m in reversed(ms):
+                    c.conn.s2c.appendleft(dict_to_bytes(m))
         elif k == "relabel":         # a genuine ciphertext of client `who` to client ci under a decorated label
             ci, who, n, side_sfx, phase_sfx = op[1:6]
             mode = op[6] if len(op) > 6 else "append"
@@ -603,7 +672,10 @@ class Runner:
                 self.expect.append("ok")
             for op in case["script"]:
                 self.do(op)
-            # wind down: everything still in flight is delivered, then both applications close
+            # wind down: everything still in flight (or withheld) is delivered, then both applications close
+            for ci in (0, 1):
+                if self.hold[ci] or self.held[ci]:
+                    self.do(["release", ci, "fifo", None])
             self.settle()
             for ci in (0, 1):
                 if not any(n == "closed" for n, _ in W.clients[ci].events):
@@ -649,6 +721,10 @@ class Runner:
             closed = [v for n, v in c.events if n == "closed"]
             if len(closed) > 1:
                 self.viol.append(("closed-twice", f"client {ci}: closed delivered {len(closed)} times: {closed}"))
+            if self.processed_bad[ci] and closed and closed[-1] in ("happy", "LonelyError"):
+                self.viol.append(("manipulated-processed-not-closed-with-error",
+                                  f"client {ci} handed manipulated frame(s) {self.processed_bad[ci][:2]} to Receive and closed "
+                                  f"{closed[-1]} (must be WrongPasswordError or an error)"))
             if self.accepted_bad[ci] and closed and closed[-1] == "happy":
                 self.viol.append(("manipulated-accepted-happy", f"client {ci} accepted manipulated frame(s) {self.accepted_bad[ci][:2]} and still closed happy"))
         if not self.tampered and not self.dropped and self.case.get("honest"):
@@ -748,7 +824,29 @@ def tamper_op(rng, ci):
     return ["inject", ci, rng.randrange(0, 4), rng.choice(PHASES), bytes(rng.randrange(256) for _ in range(rng.choice([0, 1, 24, 40, 41]))).hex()]
 
 
+def prepake_case(rng):
+    """the peer's encrypted message(s) reach the victim BEFORE the peer's PAKE message (Order queues them), usually with
+    a rewritten side label; the PAKE message follows and Order drains its queue"""
+    v = rng.randrange(2)
+    s = [["open", 0], ["open", 1]] + [["code", c] for c in rng.choice([[0, 1], [1, 0]])]
+    s.append(["hold", v])
+    for _ in range(rng.randrange(0, 3)):
+        s.append(["send", rng.randrange(2), payload(rng)])
+    s.append(["pump", rng.choice([8, 10, 14])])
+    mode = rng.choice(["early", "early", "early", "fifo"])
+    sidearg = rng.choice([None, 1, 1, 2, 3, 4, 5, 6, 7])
+    s.append(["release", v, mode, sidearg])
+    if rng.random() < 0.3:
+        s.append(tamper_op(rng, v))
+    for _ in range(rng.randrange(0, 3)):
+        s.append(["send", rng.randrange(2), payload(rng)])
+        s.append(["pump", rng.choice([1, 2, 4])])
+    return dict(kind="run", seed=rng.randrange(10**6), honest=False, script=s)
+
+
 def gen_case(rng, ntamper=None):
+    if rng.random() < 0.15:
+        return prepake_case(rng)
     ka, kb = rng.randrange(0, 7), rng.randrange(0, 7)
     if rng.random() < 0.5:
         ka, kb = rng.randrange(0, 3), rng.randrange(0, 3)
@@ -771,7 +869,10 @@ def gen_case(rng, ntamper=None):
         pos = [i + 1 for i, op in enumerate(s) if op[0] == "pump"]
         p = rng.choice(pos[len(pos) // 2:] if rng.random() < 0.7 else pos)
         ci = rng.randrange(2)
-        ins = [["drop", ci], ["open", ci], ["pump", rng.choice([1, 2, 4, 8])]]
+        ins = [["drop", ci], ["open", ci]]
+        if rng.random() < 0.5:       # selective replay after the re-open: everything but the PAKE message
+            ins += [["c2s", ci]] * 8 + [["dropmsg", ci, "pake"]]
+        ins.append(["pump", rng.choice([1, 2, 4, 8])])
         if rng.random() < 0.4:
             ins.append(rng.choice([["dupmsg", ci, rng.randrange(8)], ["replay", ci, rng.randrange(8), rng.choice(PHASES)],
                                    ["relabel", ci, 1 - ci, rng.randrange(8), "", "", "append"]]))
@@ -811,6 +912,11 @@ def corpus():
                                                                       ["relabel", ci, 1 - ci, 1, "", "", "append"], ["settle"]]))
         out.append(dict(kind="run", seed=8, honest=False, script=AK + [["drop", ci], ["open", ci], ["pump", 2], ["dupmsg", ci, 0],
                                                                       ["dupmsg", ci, 1], ["drop", ci], ["open", ci], ["settle"]]))
+        # selective replay after the re-open: the server replays the peer's version and phases but not the PAKE message
+        out.append(dict(kind="run", seed=8, honest=False, script=AK + [["drop", ci], ["open", ci]] + [["c2s", ci]] * 8 +
+                        [["dropmsg", ci, "pake"], ["settle"]]))
+        out.append(dict(kind="run", seed=8, honest=False, script=AK + [["drop", ci], ["open", ci]] + [["c2s", ci]] * 8 +
+                        [["dropmsg", ci, "pake"], ["dropmsg", ci, "version"], ["send", 1 - ci, "ee01"], ["settle"]]))
     out.append(dict(kind="run", seed=8, honest=False, script=H + [["pump", 3], ["drop", 1], ["open", 1], ["send", 0, "aa01"], ["settle"]]))
     # non-ASCII labels whose ASCII residue is an honest label (UnicodeEncodeError -> closes with error):
     # the peer's phase-0 body again as "0"+ARABIC-INDIC ONE (int() = 1) once phase 0 was delivered; the same before the
@@ -830,6 +936,14 @@ def corpus():
                         script=H + [["pump", 8], ["relabel", 1, 1, 0, sfx, "", "append"], ["s2c", 1], ["settle"]]))
         out.append(dict(kind="run", seed=9, honest=False,
                         script=H + [["send", 0, "aa01"], ["pump", 8], ["relabel", 1, 0, 1, sfx, "", "append"], ["s2c", 1], ["settle"]]))
+    # the peer's encrypted version message delivered BEFORE the peer's PAKE message, under a rewritten side label
+    # (queued by Order, drained when the PAKE arrives: must be bad -> scared -> WrongPasswordError), and the honest
+    # variants of the same schedule (early but unmodified: delivered; in order with rewritten side: scared)
+    for v in (0, 1):
+        for mode, sidearg in [("early", 1), ("early", 2), ("early", 7), ("early", None), ("fifo", 1), ("fifo", None)]:
+            out.append(dict(kind="run", seed=10, honest=(sidearg is None),
+                            script=H + [["hold", v], ["send", 1 - v, "cc01"], ["pump", 10], ["release", v, mode, sidearg],
+                                        ["send", v, "dd01"], ["settle"]]))
     # input_code: the peer's (or a forged) PAKE arrives before the words
     I = [["open", 0], ["open", 1], ["code", 0], ["nameplate", 1], ["pump", 10]]
     out.append(dict(kind="run", seed=5, honest=True, script=I + [["code", 1], ["send", 0, "01"], ["settle"]]))
@@ -840,7 +954,7 @@ def corpus():
 
 def cases(rng, tier):
     out = corpus()
-    n = 380 if tier == "quick" else 4500
+    n = 360 if tier == "quick" else 4500
     for _ in range(n):
         out.append(gen_case(rng))
     if tier == "thorough":
